@@ -264,6 +264,20 @@ def r4_hash(repo):
                 continue
             bad = [src(n) for n in iter_own_nodes(h.node) if isinstance(n, ast.Call) and
                    isinstance(n.func, ast.Name) and n.func.id in ("id", "object")]
+            # identity comparison of attribute values (`self.variance is other.variance`): equal objects are distinct
+            # after a round trip (also module-level constants: pickle rebuilds instances of ordinary classes);
+            # `x is None` and the `self is other` shortcut stay allowed
+            for n in iter_own_nodes(h.node):
+                if isinstance(n, ast.Compare) and any(isinstance(o, (ast.Is, ast.IsNot)) for o in n.ops):
+                    operands = [n.left] + list(n.comparators)
+                    if any(isinstance(x, ast.Constant) for x in operands):
+                        continue
+                    if all(isinstance(x, ast.Name) for x in operands):
+                        continue
+                    if all((isinstance(x, ast.Attribute) and x.attr == "__class__") or
+                           (isinstance(x, ast.Call) and src(x.func) == "type") for x in operands):
+                        continue    # classes are pickled by reference
+                    bad.append(src(n))
             sup = [n for n in iter_own_nodes(h.node) if isinstance(n, ast.Call) and
                    src(n.func).startswith("object.__")]
             stores = [src(n)[:50] for n in iter_own_nodes(h.node)
